@@ -51,7 +51,7 @@ def main():
         sh(f"git -C {R} diff > /verif/work/selfmut/{mid}.diff")
         r = {"props": {}}
         try:
-            t = sh(f"cd {R} && cargo test --offline 2>&1 | grep -E 'test result|FAILED|error(\\[|:)' | head -20")
+            t = sh(f"cd {R} && timeout 900 cargo test --offline 2>&1 | grep -E 'test result|FAILED|error(\\[|:)' | head -20; pkill -f '{R}/target/debug/deps/' || true")
             fails = [l for l in t.stdout.split('\n') if 'FAILED' in l or l.startswith('error')]
             r["tests_pass"] = not fails
             for pr in props:
